@@ -281,6 +281,73 @@ func c01RunTransports(c *kit.Ctx) {
 				}
 			}
 		})
+		// ---- multicast (only in shard 0: multicast groups/ports are allocated from a per-process counter, so the
+		// shard processes would otherwise share groups)
+		if c.Shard == 0 {
+			start("multicast", false, func(r *c01tRec) {
+				cl, err := kit.DialRTSP(srv.Addr)
+				if err != nil {
+					r.fail("dial")
+					ready <- r.name
+					return
+				}
+				defer cl.Close()
+				base := srv.URL(path)
+				if resp, err := cl.Do("DESCRIBE", base, nil, ""); err != nil || resp.Code != 200 {
+					r.fail("handshake DESCRIBE")
+					ready <- r.name
+					return
+				}
+				resp, err := cl.Do("SETUP", base+"/streamid=0", map[string]string{"Transport": "RTP/AVP;multicast"}, "")
+				if err != nil || resp.Code != 200 {
+					r.fail("handshake SETUP")
+					ready <- r.name
+					return
+				}
+				tr := resp.Get("Transport")
+				var group string
+				var port int
+				for _, kv := range strings.Split(tr, ";") {
+					if strings.HasPrefix(kv, "destination=") {
+						group = kv[len("destination="):]
+					}
+					if strings.HasPrefix(kv, "port=") {
+						fmt.Sscanf(kv[len("port="):], "%d", &port)
+					}
+				}
+				ifi, _ := net.InterfaceByName("eth0")
+				mc, err := net.ListenMulticastUDP("udp4", ifi, &net.UDPAddr{IP: net.ParseIP(group), Port: port})
+				if err != nil || group == "" {
+					r.fail("handshake multicast join: " + fmt.Sprint(err) + " " + tr)
+					ready <- r.name
+					return
+				}
+				defer mc.Close()
+				mc.SetReadBuffer(4 << 20)
+				if resp, err := cl.Do("PLAY", base, nil, ""); err != nil || resp.Code != 200 {
+					r.fail("handshake PLAY")
+					ready <- r.name
+					return
+				}
+				ready <- r.name
+				buf := make([]byte, 70000)
+				for atomic.LoadInt32(&stop) == 0 {
+					mc.SetReadDeadline(time.Now().Add(500 * time.Millisecond))
+					k, _, err := mc.ReadFromUDP(buf)
+					if err != nil {
+						continue
+					}
+					if k >= 12 && binary.BigEndian.Uint32(buf[8:12]) != 0x5151 {
+						// datagram of some other sender on the same multicast group/port (another process on this host)
+						c.Count("foreign_multicast_datagrams_ignored", 1)
+						continue
+					}
+					if id, ok := pub.checkRTP(r, append([]byte(nil), buf[:k]...), false); ok {
+						r.add(id)
+					}
+				}
+			})
+		}
 		// ---- HTTP-FLV and WS-FLV: ids are recovered from the NAL inside each video tag
 		flvConsume := func(r *c01tRec, rd io.Reader) {
 			br := bufio.NewReaderSize(rd, 512) // small: net/http's chunked reader holds already-read bytes back while it waits for the rest of a partially received chunk
@@ -472,6 +539,9 @@ func c01RunTransports(c *kit.Ctx) {
 				}
 			} else {
 				c.Count("udp_holes_unjudged", int64(holes))
+				if len(r.ids) == 0 {
+					c.Inconclusive("no datagram received on " + r.name + " (loss on an unreliable transport is not judged)")
+				}
 			}
 		}
 	}
